@@ -6,6 +6,7 @@
 package c20
 
 import (
+	"os"
 	"context"
 	"crypto"
 	"crypto/x509"
@@ -136,6 +137,7 @@ type caseDesc struct {
 	Disabled bool     `json:"disabled"`
 	Script   []string `json:"script"`     // per check: outcomes per token
 	Observe  []int    `json:"observe_ds"` // deciseconds offsets (each ends in 5)
+	Error    string   `json:"error,omitempty"`
 }
 
 func makeConfig(c *caseDesc) *config.Config {
@@ -337,6 +339,21 @@ func TestC20_Model(t *testing.T) {
 			}
 			changes := 0
 			sawStale := false
+			// a deadlock inside the server (e.g. a lock taken twice) blocks the bubble for good:
+			// the watchdog recognises a process that neither runs nor finishes
+			caseDone := make(chan struct{})
+			go func() {
+				if evid.WaitOrBlocked(caseDone, 25*time.Second) {
+					buf := make([]byte, 1<<20)
+					buf = buf[:runtime.Stack(buf, true)]
+					c.Error = "the server stopped making progress (all goroutines blocked for 25 s without CPU use) while this history was running: deadlock"
+					evid.SaveCase("TestC20_Model", c)
+					fmt.Printf("--- FAIL: TestC20_Model\n    %s\n    history: %+v\n%s\n", c.Error, *c, buf)
+					rec.Flush()
+					os.Exit(1)
+				}
+			}()
+			defer close(caseDone)
 			synctest.Test(t, func(*testing.T) {
 				currentReg = reg
 				srv, err := server.New(makeConfig(c))
